@@ -7,8 +7,9 @@ namespace Duck
 open Duck.Spec Duck.Generated
 
 def StmtSimFor (is : List Instruction) (fuel : Nat) (st : Stmt) : Prop :=
-  ∀ (lo : Nat) (s : Sdk) (t t' : TState), st.wf = true → st.simple = true → At is lo st.flatten →
+  ∀ (lo : Nat) (s : Sdk) (t t' : TState), st.wf = true → st.simple2 = true → At is lo st.flatten →
     CacheOK is s → Rel s t → ForOK lo (lo + st.flatten.length) s.forStack →
+    safeStmt is fuel st t = true →
     execStmt is fuel st t = .normal t' →
     Sim is lo (lo + st.flatten.length) (fun x => Stmt.assigns x st) s t t'
 
@@ -32,9 +33,9 @@ theorem line_core (is : List Instruction) (lo hi : Nat) (A : Str → Bool) (s : 
     · exact hrel.hok.put_mono items k l hk
 
 theorem stmt_line (is : List Instruction) (fuel : Nat) (l : Line) : StmtSimFor is (fuel + 1) (.line l) := by
-  intro lo s t t' hwf hs hat hc hrel hfor hex
+  intro lo s t t' hwf hs hat hc hrel hfor _ hex
   have hl : lookupFn t.fns l.cmd = none := by rw [hrel.tfns]; rfl
-  simp only [Stmt.simple, Bool.and_eq_true] at hs
+  simp only [Stmt.simple2, Bool.and_eq_true] at hs
   obtain ⟨c, hres, hsc⟩ := isSimpleCmd_resolve hs.1
   simp only [Stmt.flatten] at hat
   have hi := At.head hat
@@ -77,8 +78,9 @@ theorem stmt_line (is : List Instruction) (fuel : Nat) (l : Line) : StmtSimFor i
 def StmtSim (is : List Instruction) (fuel : Nat) : Prop := ∀ st, StmtSimFor is fuel st
 
 def BlockSim (is : List Instruction) (fuel : Nat) : Prop :=
-  ∀ (b : Block) (lo : Nat) (s : Sdk) (t t' : TState), b.wf = true → b.simple = true →
+  ∀ (b : Block) (lo : Nat) (s : Sdk) (t t' : TState), b.wf = true → b.simple2 = true →
     At is lo b.flatten → CacheOK is s → Rel s t → ForOK lo (lo + b.flatten.length) s.forStack →
+    safeBlock is fuel b t = true →
     execBlock is fuel b t = .normal t' →
     Sim is lo (lo + b.flatten.length) (fun x => Block.assigns x b) s t t'
 
@@ -97,7 +99,7 @@ theorem Sim.seq {is : List Instruction} {lo mid hi : Nat} {A1 A2 A : Str → Boo
 
 theorem block_step (is : List Instruction) (fuel : Nat) (hS : StmtSim is fuel) (hB : BlockSim is fuel) :
     BlockSim is (fuel + 1) := by
-  intro b lo s t t' hwf hs hat hc hrel hfor hex
+  intro b lo s t t' hwf hs hat hc hrel hfor hsafe hex
   cases b with
   | nil =>
     simp only [execBlock, TOut.normal.injEq] at hex
@@ -105,17 +107,20 @@ theorem block_step (is : List Instruction) (fuel : Nat) (hS : StmtSim is fuel) (
     simp only [Block.flatten, List.length_nil, Nat.add_zero]
     exact ⟨s, Steps.refl _ _ _ _, SimCore.refl hc hrel, Garb.refl _ _ _ _, Garb.refl _ _ _ _, rfl⟩
   | cons st rest =>
-    simp only [Block.wf, Block.simple, Bool.and_eq_true] at hwf hs
+    simp only [Block.wf, Block.simple2, Bool.and_eq_true] at hwf hs
     simp only [Block.flatten, List.length_append, ← Nat.add_assoc] at hat hfor ⊢
     simp only [execBlock] at hex
+    simp only [safeBlock, Bool.and_eq_true] at hsafe
     cases h1 : execStmt is fuel st t with
     | normal t1 =>
       rw [h1] at hex
+      have hsafe2 := hsafe.2
+      rw [h1] at hsafe2
       have S1 := hS st lo s t t1 hwf.1 hs.1 hat.left hc hrel
-        (hfor.mono (Nat.le_refl _) (by omega)) h1
+        (hfor.mono (Nat.le_refl _) (by omega)) hsafe.1 h1
       refine Sim.seq S1 (fun s1 hc1 hr1 hf1 =>
         hB rest _ s1 t1 t' hwf.2 hs.2 hat.right hc1 hr1
-          (by rw [hf1]; exact hfor.mono (by omega) (Nat.le_refl _)) hex)
+          (by rw [hf1]; exact hfor.mono (by omega) (Nat.le_refl _)) hsafe2 hex)
         (by omega) (by omega) ?_ ?_
       · intro x hx; simp only [Block.assigns, Bool.or_eq_false_iff] at hx; exact hx.1
       · intro x hx; simp only [Block.assigns, Bool.or_eq_false_iff] at hx; exact hx.2
